@@ -82,7 +82,7 @@ bool isap128::set_key(const unsigned char *key, size_t len)
         return true;
     } else if (len == 0) {
         ::ascon128_isap_aead_free(&m_key);
-        ::ascon128_isap_aead_init(&m_key, key);
+        ::ascon128_isap_aead_init(&m_key, zero_key);
         return true;
     } else {
         return false;
@@ -193,7 +193,7 @@ bool isap128a::set_key(const unsigned char *key, size_t len)
         return true;
     } else if (len == 0) {
         ::ascon128a_isap_aead_free(&m_key);
-        ::ascon128a_isap_aead_init(&m_key, key);
+        ::ascon128a_isap_aead_init(&m_key, zero_key);
         return true;
     } else {
         return false;
@@ -304,7 +304,7 @@ bool isap80pq::set_key(const unsigned char *key, size_t len)
         return true;
     } else if (len == 0) {
         ::ascon80pq_isap_aead_free(&m_key);
-        ::ascon80pq_isap_aead_init(&m_key, key);
+        ::ascon80pq_isap_aead_init(&m_key, zero_key);
         return true;
     } else {
         return false;
